@@ -56,6 +56,7 @@ type Result struct {
 	ShowRan    bool
 	ShowOuts   map[string]string // stdout of wire show under each extra variant (e.g. iteration-order schedules)
 	TreeChangedBy string // a read-only command that changed the case's directory
+	Company    []*Case     // the cases processed by the same wire invocation (batch runs only)
 	NotRun     bool        // skipped by fail-fast
 	Judged     bool
 	Verdict    []Violation // filled by RunAll
@@ -322,6 +323,11 @@ func (rn *Runner) runBatch(cases []*Case) []*Result {
 	sub := rn.Cmd
 	if sub == "" {
 		sub = "gen"
+	}
+	if len(cases) > 1 {
+		for _, r := range results {
+			r.Company = cases
+		}
 	}
 	if len(cases) == 1 {
 		rn.runSolo(mod, results[0], sub)
@@ -933,6 +939,21 @@ func tail(s string, n int) string {
 }
 
 // RunOne runs a single case alone in a fresh module (used for re-runs and replays).
+// RunInCompany re-runs a whole batch (copies of its cases, same order) and returns the result of the case with the given id.
+func (rn *Runner) RunInCompany(company []*Case, id string) *Result {
+	cp := make([]*Case, len(company))
+	for i, c := range company {
+		cc := *c
+		cp[i] = &cc
+	}
+	for _, r := range rn.runBatch(cp) {
+		if r != nil && r.Case.ID == id {
+			return r
+		}
+	}
+	return nil
+}
+
 func (rn *Runner) RunOne(c *Case) *Result {
 	cc := *c
 	rs := rn.runBatch([]*Case{&cc})
